@@ -366,7 +366,8 @@ def xml_pred():
 
 @st.composite
 def xml_nodes(draw, depth):
-    s = draw(st.one_of(gt.iris(), gt.iris(rich=False), st.sampled_from(XML_BNODES).map(lambda l: ["b", l]), st.none()))
+    s = draw(st.one_of(gt.iris(), gt.iris(rich=False), st.sampled_from(XML_BNODES).map(lambda l: ["b", l]), st.none(),
+                       st.sampled_from(["http://ex.org/doc#id1", "http://ex.org/doc#b", "http://ex.org/a/doc#é.1"]).map(lambda i: ["u", i])))
     typ = draw(st.one_of(st.none(), st.none(), xml_pred(), st.just("http://ex.org/ns#Class")))
     lang = draw(st.one_of(st.none(), st.none(), st.none(), st.sampled_from(["en", "de", "en-US"])))
     props = []
@@ -376,7 +377,11 @@ def xml_nodes(draw, depth):
         k = draw(st.sampled_from(["lit", "lit", "attr", "res", "res", "node", "ptres", "ptcoll", "li"]))
         p = draw(xml_pred())
         if k == "lit":
-            props.append(["lit", p, draw(lit)])
+            if lang and draw(st.booleans()):
+                # a literal in the language that is in scope on the node element
+                props.append(["lit", p, ["l", draw(gt.strings(xml_safe=True)), lang, None]])
+            else:
+                props.append(["lit", p, draw(lit)])
         elif k == "attr":
             props.append(["attr", p, draw(gt.plain_literals(xml_safe=True))])
         elif k == "res":
@@ -472,3 +477,170 @@ def run_xml(case):
 
 
 SUBCHECKS.append(Sub("rdfxml", lambda tier: xml_cases(tier), run_xml, {"quick": 3000, "thorough": 100000}))
+
+
+# ---------------------------------------------------------------- JSON-LD, forward
+JL_LANGS = ["en", "de", "en-us"]
+
+
+@st.composite
+def jl_values(draw, depth):
+    k = draw(st.integers(0, 9))
+    if k <= 3:
+        return ["lit", draw(st.one_of(gt.literals(unknown=True), gt.falsy_literals(), gt.plain_literals()))]
+    if k <= 5:
+        return ["ref", draw(st.one_of(gt.iris(), gt.iris(rich=False), gt.bnodes()))]
+    if k == 6 and depth > 0:
+        return ["node", draw(jl_nodes(depth - 1))]
+    if k == 7 and depth > 0:
+        return ["list", draw(st.lists(jl_values(0), max_size=3))]
+    return ["lit", draw(gt.plain_literals())]
+
+
+@st.composite
+def jl_nodes(draw, depth):
+    ident = draw(st.one_of(gt.iris(), gt.iris(rich=False), gt.bnodes(), st.none()))
+    preds = st.one_of(st.sampled_from(NICE_PREDS), gt.iris().map(lambda t: t[1]))
+    types = draw(st.lists(st.one_of(st.just("http://ex.org/ns#Class"), preds), max_size=2, unique=True))
+    one_list = st.lists(jl_values(0), max_size=3).map(lambda xs: [["list", xs]])
+    props = draw(st.lists(st.tuples(preds, st.one_of(st.lists(jl_values(depth), min_size=1, max_size=3), st.lists(jl_values(depth), min_size=1, max_size=3),
+                                                      one_list if depth > 0 else st.lists(jl_values(0), min_size=1, max_size=2))).map(list),
+                          max_size=3, unique_by=lambda x: x[0]))
+    rev = []
+    if depth > 0 and draw(st.integers(0, 5)) == 0:
+        rev = [[draw(preds), draw(st.lists(jl_nodes(0), min_size=1, max_size=2))]]
+    return {"id": ident, "types": types, "props": props, "reverse": rev}
+
+
+@st.composite
+def jl_cases(draw, tier):
+    default = draw(st.lists(jl_nodes(2), min_size=0, max_size=3))
+    graphs = []
+    if draw(st.integers(0, 2)) == 0:
+        names = [["u", "http://ex.org/g1"], ["u", "urn:ex:g#2"], ["b", "gb"]]
+        graphs = draw(st.lists(st.tuples(st.sampled_from(names), st.lists(jl_nodes(1), min_size=1, max_size=2)).map(list), min_size=1, max_size=2, unique_by=lambda x: repr(x[0])))
+    modes = ["str"] + draw(st.lists(st.sampled_from(MODES[1:]), min_size=1, max_size=2, unique=True))
+    return {"syntax": "json-ld", "doc": {"default": default, "graphs": graphs}, "choices": draw(st.lists(st.integers(0, 999), min_size=80, max_size=140)), "modes": modes}
+
+
+def jl_ast(n):
+    def val(v):
+        if v[0] in ("lit", "ref"):
+            return (v[0], jt(v[1]))
+        if v[0] == "node":
+            return ("node", jl_ast(v[1]))
+        return ("list", [val(m) for m in v[1]])
+    return {"id": jt(n["id"]) if n["id"] is not None else None, "types": list(n["types"]),
+            "props": [(p, [val(v) for v in vals]) for p, vals in n["props"] if vals],
+            "reverse": [(p, [jl_ast(m) for m in subs]) for p, subs in n.get("reverse", []) if subs]}
+
+
+def jl_collect(n, iris, preds, langs, dts):
+    if n["id"] is not None and n["id"][0] == "u":
+        iris.append(n["id"][1])
+    for t in n["types"]:
+        iris.append(t)
+        preds.append(t)
+
+    def val(v):
+        if v[0] == "lit":
+            if v[1][3]:
+                langs.append(v[1][3])
+            if v[1][2]:
+                dts.append(v[1][2])
+                iris.append(v[1][2])
+        elif v[0] == "ref":
+            if v[1][0] == "u":
+                iris.append(v[1][1])
+        elif v[0] == "node":
+            jl_collect(v[1], iris, preds, langs, dts)
+        else:
+            for m in v[1]:
+                val(m)
+    for p, vals in n["props"]:
+        iris.append(p)
+        preds.append(p)
+        for v in vals:
+            val(v)
+    for p, subs in n["reverse"]:
+        iris.append(p)
+        preds.append(p)
+        for m in subs:
+            jl_collect(m, iris, preds, langs, dts)
+
+
+def run_jsonld(case):
+    out = Out()
+    doc = {"default": [jl_ast(n) for n in case["doc"]["default"]], "graphs": [(jt(g), [jl_ast(n) for n in nodes]) for g, nodes in case["doc"]["graphs"]]}
+    c = sx.Chooser(case["choices"])
+    want = sx.eval_jsonld(doc)
+    iris, preds, langs, dts = [], [], [], []
+    for n in doc["default"]:
+        jl_collect(n, iris, preds, langs, dts)
+    for g, nodes in doc["graphs"]:
+        if g[0] == "u":
+            iris.append(g[1])
+        for n in nodes:
+            jl_collect(n, iris, preds, langs, dts)
+    uniq = lambda xs: list(dict.fromkeys(xs))  # noqa: E731
+    text = sx.JSONLDWriter(c).document(doc, uniq(iris), uniq(preds), uniq(langs), uniq(dts))
+    res = parse_modes(text, "json-ld", True, case["modes"])
+    if not judge(out, res, want, "json-ld", text, c.features, case):
+        return out
+    out.nontrivial = len(c.features) >= 2 and bool(want)
+    out.cls("syntax:json-ld", *["f:" + f for f in sorted(c.features)], "features:%d" % min(len(c.features), 9))
+    return out
+
+
+SUBCHECKS.append(Sub("jsonld", lambda tier: jl_cases(tier), run_jsonld, {"quick": 3000, "thorough": 100000}))
+
+
+# ---------------------------------------------------------------- a small corpus of hand-written spellings (one per repaired finding), every mode
+X = gt.XSD
+CORPUS = [
+    ("nt", '<urn:s><urn:p><urn:o>.\n_:s<urn:p>"x".\n<urn:s><urn:p>_:o.', [["u:urn:s", "u:urn:p", "u:urn:o"], ["b:s", "u:urn:p", "l:x"], ["u:urn:s", "u:urn:p", "b:o"]]),
+    ("nt", '<urn\\u003As> <urn:p><u\\u0072n:o> .', [["u:urn:s", "u:urn:p", "u:urn:o"]]),
+    ("nquads", '<a\\u003Ab><c:d><e:f><g:h>.', [["u:a:b", "u:c:d", "u:e:f", "u:g:h"]]),
+    ("nt", '_:é <urn:p> _:a.b .\n_:1 <urn:p> _:é .', [["b:é", "u:urn:p", "b:a.b"], ["b:1", "u:urn:p", "b:é"]]),
+    ("turtle", '@base <http://ex.org/ns#frag> . <#x> <p> <> .', [["u:http://ex.org/ns#x", "u:http://ex.org/p", "u:http://ex.org/ns"]]),
+    ("turtle", '@base <http://ex.org/a/b> . <#a:b> <?x=a:b> <c> .', [["u:http://ex.org/a/b#a:b", "u:http://ex.org/a/b?x=a:b", "u:http://ex.org/a/c"]]),
+    ("turtle", '@base <http://ex.org/a/b?q=/z> . <?y> <c> <#f> .', [["u:http://ex.org/a/b?y", "u:http://ex.org/a/c", "u:http://ex.org/a/b?q=/z#f"]]),
+    ("turtle", '@prefix ex: <http://ex.org/> . ex:a ex:p\\. ex:b\\.\n. ex:c ex:p ex:d.', [["u:http://ex.org/a", "u:http://ex.org/p.", "u:http://ex.org/b."], ["u:http://ex.org/c", "u:http://ex.org/p", "u:http://ex.org/d"]]),
+    ("turtle", '@base <http://ex.org/d/> . <s> <=p> <o> ; <=> <o> .', [["u:http://ex.org/d/s", "u:http://ex.org/d/=p", "u:http://ex.org/d/o"], ["u:http://ex.org/d/s", "u:http://ex.org/d/=", "u:http://ex.org/d/o"]]),
+    ("turtle", '<urn:s> <urn:p> """a\rb\r\nc""" .', [["u:urn:s", "u:urn:p", "l:a\rb\r\nc"]]),
+    ("trig", '@prefix : <urn:> . :g { :s :p """x\ry""" } _:b { _:b :p _:b }', [["u:urn:s", "u:urn:p", "l:x\ry", "u:urn:g"], ["b:b", "u:urn:p", "b:b", "b:b"]]),
+    ("xml", '<rdf:RDF xmlns:rdf="http://www.w3.org/1999/02/22-rdf-syntax-ns#" xmlns:e="urn:e:" xml:base="http://ex.org/b/c"><rdf:Description rdf:about="file:////x//y"><e:p rdf:resource="http://ex.org/q?"/><e:p rdf:resource="d?"/></rdf:Description></rdf:RDF>',
+     [["u:file:////x//y", "u:urn:e:p", "u:http://ex.org/q?"], ["u:file:////x//y", "u:urn:e:p", "u:http://ex.org/b/d?"]]),
+    ("json-ld", '{"@context": {"@base": "http://ex.org/b/c"}, "@id": "//ex.org/a//b", "urn:p": {"@id": "/x//y"}}', [["u:http://ex.org/a//b", "u:urn:p", "u:http://ex.org/x//y"]]),
+    ("json-ld", '{"@id":"urn:a","urn:p":"é😀"}', [["u:urn:a", "u:urn:p", "l:é😀"]]),
+]
+
+
+def corpus_term(s):
+    if s.startswith("u:"):
+        return ("u", s[2:])
+    if s.startswith("b:"):
+        return ("b", s[2:])
+    return ("l", s[2:], None, None)
+
+
+def run_corpus(case):
+    out = Out()
+    fmt, doc, exp = CORPUS[case["i"]]
+    dataset = fmt in ("nquads", "trig", "json-ld")
+    want = set()
+    for t in exp:
+        q = tuple(corpus_term(x) for x in t)
+        if dataset:
+            q = q if len(q) == 4 else q + (None,)
+        want.add(q)
+    res = parse_modes(doc, fmt, dataset, MODES)
+    if not judge(out, res, want, fmt, doc, {"corpus"}, case):
+        return out
+    out.nontrivial = True
+    out.cls("corpus:" + fmt)
+    return out
+
+
+SUBCHECKS.append(Sub("corpus", lambda tier: st.integers(0, len(CORPUS) - 1).map(lambda i: {"i": i}), run_corpus, {"quick": len(CORPUS), "thorough": len(CORPUS)},
+                     max_shards=1, enum=lambda tier: ({"i": i} for i in range(len(CORPUS)))))
